@@ -92,20 +92,49 @@ def stage_replay(out: core.Outcome, *, max_stmts, max_h, cases, alphabet, simula
     return n_beh
 
 
+def _gen_and_run(job):
+    """Worker: generates and executes `count` programs of a profile starting at generator seed `first`."""
+    profile, first, count = job
+    res = []
+    for gs in range(first, first + count):
+        prog = gen_program(gs, PROFILES[profile])
+        res.append((prog, run_program(prog), gs))
+    return res
+
+
 def stage_traces(out: core.Outcome, *, profile: str, n: int, clauses, seed_offset=0, transform=None):
     """code -> spec.  Random programs (seeded) executed on the implementation, traces validated by TLC."""
     items = []
     skipped = 0
     base = out.seed * 1_000_003 + seed_offset
-    for i in range(n):
-        prog = gen_program(base + i, PROFILES[profile])
-        if transform:
-            prog = transform(prog)
-        tr = run_program(prog)
-        if tr is None:
-            skipped += 1
-            continue
-        items.append({"prog": prog, "trace": tr, "meta": {"profile": profile, "gen_seed": base + i}})
+    if n >= 400 and transform is None:
+        # generation + execution spread over worker processes (each program runs in a fresh global state anyway)
+        import multiprocessing
+
+        jobs = [(profile, base + k, min(250, n - k)) for k in range(0, n, 250)]
+        with multiprocessing.get_context("fork").Pool(min(16, len(jobs))) as pool:
+            for part in pool.imap(_gen_and_run, jobs):
+                for prog, tr, gs in part:
+                    if tr is None:
+                        skipped += 1
+                    else:
+                        items.append({"prog": prog, "trace": tr, "meta": {"profile": profile, "gen_seed": gs}})
+    else:
+        for i in range(n):
+            prog = gen_program(base + i, PROFILES[profile])
+            if transform:
+                prog = transform(prog)
+            tr = run_program(prog)
+            if tr is None:
+                skipped += 1
+                continue
+            items.append({"prog": prog, "trace": tr, "meta": {"profile": profile, "gen_seed": base + i}})
+    kinds = collections.Counter()
+    for it in items:
+        for st_ in it["prog"]:
+            kinds[st_["k"] if st_["k"] != "op" else "op:" + st_["f"]] += 1
+            if st_.get("fail"):
+                kinds["failing statements"] += 1
     counts, stats = core.validate_traces(out, TRACE_SPEC, TRACE_CFG, clauses, items)
     cov = out.coverage
     cov["traces_validated_against_impl"] = cov.get("traces_validated_against_impl", 0) + len(items)
@@ -114,7 +143,8 @@ def stage_traces(out: core.Outcome, *, profile: str, n: int, clauses, seed_offse
     distinct = len({json.dumps(it["prog"], sort_keys=True) for it in items})
     cov.setdefault("trace_stages", []).append(
         {"profile": profile, "programs": len(items), "distinct_programs": distinct, "out_of_model": skipped,
-         "statements": sum(len(it["trace"]) for it in items), "clauses": list(clauses), "verdicts": dict(counts)})
+         "statements": sum(len(it["trace"]) for it in items), "clauses": list(clauses), "verdicts": dict(counts),
+         "statement_kinds": dict(sorted(kinds.items()))})
     if items:
         out.add_sample({"kind": "validated_trace", "program": items[0]["prog"]}, limit=4)
     if n and skipped > 0.05 * n:
